@@ -94,5 +94,25 @@ HtmlBadX(N, lc, top, toks, xns) ==
 
 HtmlBad(N, lc, top, toks) == HtmlBadX(N, lc, top, toks, XhtmlNs)
 
+\* A CDATA section appears only as the content of an element that was asked to get one (cdata_section_elements holds
+\* expanded names: exactly those, not names that differ in letter case or in the choice between no namespace and XHTML).
+\* The element a token lies in is found by replaying the tag tokens against the expected tag sequence.
+RECURSIVE EnclosingB(_, _, _, _, _, _)
+EnclosingB(toks, exp, j, t, stack, q) ==            \* the innermost open element when token q is reached
+    IF j >= q THEN (IF stack = <<>> THEN 0 ELSE stack[Len(stack)])
+    ELSE IF toks[j].k \notin {"stag", "etag"} \/ t + 1 > Len(exp) THEN EnclosingB(toks, exp, j + 1, t, stack, q)
+    ELSE LET x == exp[t + 1] IN
+         IF x[1] = "s"
+         THEN EnclosingB(toks, exp, j + 1, t + 1,
+                         IF \E r \in (t + 2)..Len(exp) : exp[r] = <<"e", x[2]>> THEN Append(stack, x[2]) ELSE stack, q)
+         ELSE EnclosingB(toks, exp, j + 1, t + 1, IF stack = <<>> THEN stack ELSE SubSeq(stack, 1, Len(stack) - 1), q)
+CdataUnrequested(N, lc, top, toks, xns, req) ==
+    LET exp == TagSeq(N, lc, top, xns)
+        tags == Tags(toks)
+        aligned == Len(tags) = Len(exp) /\ \A j \in 1..Len(exp) : (exp[j][1] = "s") = (tags[j].k = "stag")
+    IN IF ~aligned THEN {}
+       ELSE {q \in 1..Len(toks) : toks[q].k = "cdata" /\
+                LET n == EnclosingB(toks, exp, 1, 0, <<>>, q) IN n = 0 \/ <<N[n].ns, N[n].ln>> \notin req}
+
 PiWithGt(N, top) == \E x \in Subtree(N, top) : N[x].k = "pi" /\ \E q \in 1..Len(N[x].t) : N[x].t[q] = 62
 =============================================================================
